@@ -182,6 +182,11 @@ def make_replay(pid, name, ob, res, contract, reg, mod):
     try:
         job = job_of(contract, reg, mod, pid, name)
         job['solver_output'] = solver_out
+        try:
+            from .check import load_findings
+            job['known_regions'] = [f['region'] for f in load_findings(pid) if f.get('function') == contract.name]
+        except Exception:
+            pass
         sc = scalar_params(contract)
         candidates = []
         for b in (4, 16, 256, None):
